@@ -90,7 +90,8 @@ def ensure_built():
     lk = _lock()
     try:
         r = subprocess.run(["bash", os.path.join(VERIF, "setup.sh"), "--if-stale"],
-                           cwd=VERIF, capture_output=True, text=True, timeout=3000)
+                           cwd=VERIF, capture_output=True, text=True, timeout=3000,
+                           env=dict(os.environ, VERIF_BUILD_LOCKED="1"))
         return r.returncode == 0, (r.stdout + r.stderr)[-4000:]
     finally:
         lk.close()
